@@ -20,11 +20,11 @@ def run(tier, seed):
     ctx = vlib.Ctx("C06", tier, seed, LEVEL)
     ctx.assumptions = [
         "i64 values are anchored integers k*2^62+r; division and bitwise operators are only enumerated for small operands (plus x/0 and MIN/-1)",
-        "string relations come from a generated table over {\"\", a, ab, b} (spec/ExprStr.tla); regular expressions are literal patterns only",
+        "string relations come from a generated table over {\"\", a, ab, b, re, ad, read} (spec/gen_exprstr.py -> spec/ExprStr.tla; read is one of the default symbols of every symbol table); regular expressions are literal patterns only",
         "errors are compared as a class (the property does not fix the variant); extern functions are outside the universe",
     ]
     total = 0
-    for fam in ("binary", "unary", "stack", "closure"):
+    for fam in ("binary", "unary", "stack", "closure", "compose"):
         c = {"StrFacts": "<- StrFactsC", "Family": '"%s"' % fam, "ExportOn": True}
         cfg = vlib.write_cfg(os.path.join(ctx.work, fam + ".cfg"), c, INV + ["Export"])
         res = ctx.tlc("ExprMC", cfg, name=fam, tags=("EXPR",), seed=seed)
@@ -36,7 +36,8 @@ def run(tier, seed):
         rule="Families: `binary` = 28 binary operators x 32^2 value pairs (10 integers incl. MIN, MAX, MAX-1, MIN+1, 2^62; strings; dates; bytes; bools; null; "
              "4 sets; 4 arrays incl. nested; 3 maps); `unary` = 4 x 32; `stack` = every operation sequence of length <= 3 over an 8-symbol alphabet "
              "(underflow, leftovers, misplaced closures); `closure` = lazy operators x erroring / non-boolean right sides, all/any over sets, arrays, maps "
-             "and non-collections, wrong arity, nesting, shadowing of outer parameters and of rule variables. TLC checks totality, type strictness "
+             "and non-collections, wrong arity, nesting, shadowing of outer parameters and of rule variables; `compose` = a string computed by concatenation compared (4 equality operators, "
+             "contains, get) with the same or another string written as a literal, held in an array / set / map key, bound by the rule, or computed too. TLC checks totality, type strictness "
              "(Accepts table), laziness; every state is evaluated by Expression::evaluate and value-or-error must equal the spec's. %d cases." % total,
         exhaustive=True)
 
